@@ -36,7 +36,7 @@ RULE = (
 )
 ASSUMPTIONS = ["netCDF4 (the library) is trusted to read back what it wrote", "results written together share one shape (the writer validates it)"]
 
-NP = {"f8": numpy.float64, "f4": numpy.float32, "i8": numpy.int64, "i4": numpy.int32, "i2": numpy.int16}
+NP = {"u8": numpy.uint64, "f8": numpy.float64, "f4": numpy.float32, "i8": numpy.int64, "i4": numpy.int32, "i2": numpy.int16}
 
 
 def make_template(path, dims, variables=(), crs=None):
